@@ -353,21 +353,33 @@ func (w *World) Crash(cut int, ch sim.Chooser) *CrashImage {
 // Restart builds a new world (same configuration, same model) on a
 // crash image. The old world must not be used afterwards except Close.
 func (w *World) Restart(ci *CrashImage) *World {
+	return w.RestartShrunk(ci, 0)
+}
+
+// RestartShrunk restarts with `drop` fewer spare blocks: the device is
+// truncated, so blocks stored in the dropped regions cannot be
+// re-attached and the restore has to stop at the first of them.
+func (w *World) RestartShrunk(ci *CrashImage, drop int) *World {
 	log := &sim.Log{}
 	media := &Media{Log: log}
+	cfg := w.Cfg
+	if drop > cfg.Spare {
+		drop = cfg.Spare
+	}
+	cfg.Spare -= drop
 	if ci.Data != nil {
-		media.Data = sim.NewDevice("data", log, ci.Data)
+		media.Data = sim.NewDevice("data", log, ci.Data[:cfg.BlockSize()*cfg.BlockCount()])
 	}
 	if ci.Index != nil {
 		media.Index = sim.NewDevice("index", log, ci.Index)
 	}
 	media.Dir = sim.NewDirFromImage(log, ci.Dir)
 	n := &World{
-		T: w.T, Cfg: w.Cfg, Sched: sim.NewSched(), Ctx: context.Background(),
+		T: w.T, Cfg: cfg, Sched: sim.NewSched(), Ctx: context.Background(),
 		Objs: w.Objs, byHash: w.byHash, acked: w.acked, derived: map[string][]byte{}, attempted: w.attempted,
 		Flags: w.Flags, counter: w.counter, Epoch: w.Epoch + 1,
 	}
-	n.History = append(append([]string{}, w.History...), fmt.Sprintf("=== CRASH at I/O #%d (lost %d unsynced units, kept %d) and RESTART ===", ci.Cut, ci.LostUnits, ci.KeptUnits))
+	n.History = append(append([]string{}, w.History...), fmt.Sprintf("=== CRASH at I/O #%d (lost %d unsynced units, kept %d) and RESTART (spare blocks dropped: %d) ===", ci.Cut, ci.LostUnits, ci.KeptUnits, drop))
 	// Uploads that were in flight at the crash never complete.
 	n.build(media, 0)
 	return n
@@ -410,4 +422,12 @@ func (w *World) InstallDurableCheck() {
 		}
 		return false
 	}
+}
+
+// DurableStateBlocks returns the block list of the state file in the image.
+func (ci *CrashImage) DurableStateBlocks() []*pb.BlockState {
+	if ci.DurableState == nil {
+		return nil
+	}
+	return ci.DurableState.Blocks
 }
